@@ -120,7 +120,7 @@ class AngularCoordinates(CustomNumpyArray):
         Returns:
             New instance of :obj:`~yaw.AngularCoordinates`.
         """
-        x, y, z = np.transpose(np.atleast_2d(xyz))
+        x, y, z = np.transpose(np.atleast_2d(np.asarray(xyz, dtype=np.float64)))
 
         r_d2 = np.sqrt(x * x + y * y)
         r_d3 = np.sqrt(x * x + y * y + z * z)
@@ -263,6 +263,7 @@ class AngularDistances(CustomNumpyArray):
             ValueError:
                 If any input distance exceeds 2, the diameter of the unit-sphere.
         """
+        dists = np.asarray(dists, dtype=np.float64)
         if np.any(dists > 2.0):
             raise ValueError("distance exceeds size of unit sphere")
 
